@@ -15,6 +15,7 @@ type convergeModel struct {
 	begins                                             []*ssa.Call // Begin calls in Converge, in source order
 	tx                                                 []ssa.Value // tx value per begin
 	res                                                *Resolver
+	reg                                                *Region
 	reach                                              map[*ssa.Function]bool
 }
 
@@ -37,7 +38,86 @@ func newConvergeModel(c *Ctx) *convergeModel {
 		}
 	}
 	m.reach = m.res.Reachable(m.conv)
+	// Converge with its single-use helpers inlined (target selection, the
+	// write transaction, … may be extracted): rules query this view
+	m.reg = NewRegion(m.conv)
+	m.begins, m.tx = nil, nil
+	for _, ci := range m.reg.Calls() {
+		if call, ok := ci.(*ssa.Call); ok && calleeName(call) == poolBegin {
+			m.begins = append(m.begins, call)
+			m.tx = append(m.tx, extractOf(call, 0))
+		}
+	}
 	return m
+}
+
+func (m *convergeModel) calls(fn *ssa.Function) []*ssa.Call {
+	var out []*ssa.Call
+	for _, f := range m.reg.Funcs() {
+		out = append(out, callsToFn(f, fn)...)
+	}
+	return out
+}
+
+func (m *convergeModel) allCalls() []ssa.CallInstruction { return m.reg.Calls() }
+
+// headNum: the head number the source reported for this step: result 0 of
+// the Source.Latest call of Converge (or of a helper of Converge other than
+// Task.latest, which asks the source on its own when there is no position yet)
+func (m *convergeModel) headNum() ssa.Value {
+	var best *ssa.Call
+	for _, ci := range m.reg.Calls() {
+		call, ok := ci.(*ssa.Call)
+		if !ok || !call.Call.IsInvoke() || call.Call.Method.Name() != "Latest" {
+			continue
+		}
+		inLatest := false
+		for _, at := range m.reg.chain(call) {
+			if at.Parent() == m.latest {
+				inLatest = true
+			}
+		}
+		if inLatest {
+			continue
+		}
+		if best == nil || call.Parent() == m.conv {
+			best = call
+		}
+	}
+	if best == nil {
+		return nil
+	}
+	return extractOf(best, 0)
+}
+
+func (m *convergeModel) cmpEdges(pred func(b *ssa.BinOp) bool) (tru, fls []Edge) {
+	for _, f := range m.reg.Funcs() {
+		t, fl := cmpEdges(f, pred)
+		tru, fls = append(tru, t...), append(fls, fl...)
+	}
+	return
+}
+
+func (m *convergeModel) dom(a, b ssa.Instruction) bool { return m.reg.Dominates(a, b) }
+
+func (m *convergeModel) guarded(site ssa.Instruction, edges []Edge) bool {
+	return m.reg.Guarded(site, edges)
+}
+
+// invokesOn: interface method calls named `name` on the value v, anywhere in the inlined view
+func (m *convergeModel) invokesOn(v ssa.Value, name string) []ssa.CallInstruction {
+	var out []ssa.CallInstruction
+	rv := stripConv(m.reg.Resolve(stripConv(v)))
+	for _, ci := range m.reg.Calls() {
+		cc := ci.Common()
+		if !cc.IsInvoke() || cc.Method.Name() != name {
+			continue
+		}
+		if x := stripConv(m.reg.Resolve(stripConv(cc.Value))); x == rv || sameVar(x, rv) {
+			out = append(out, ci)
+		}
+	}
+	return out
 }
 
 // beginIndex: which Begin of Converge a connection value originates from
@@ -108,8 +188,8 @@ func propC02(c *Ctx) {
 	c.Stats["sql_sites_reachable_from_converge"] = nReach
 
 	// the write phase (insert, update) must share one transaction, distinct from the read phase's
-	insCalls := callsToFn(conv, m.insert)
-	updCalls := callsToFn(conv, m.update)
+	insCalls := m.calls(m.insert)
+	updCalls := m.calls(m.update)
 	if len(insCalls) != 1 || len(updCalls) != 1 {
 		c.Violation("R2.1", "Converge/insert+update", conv.Pos(), fmt.Sprintf("expected exactly one insert and one update call in Converge, found %d/%d", len(insCalls), len(updCalls)))
 		return
@@ -137,7 +217,7 @@ func propC02(c *Ctx) {
 		c.Violation("R2.2", "Converge/return-nil", conv.Pos(), "no success return found")
 	}
 	if wtx != nil {
-		commits := invokesOn(conv, wtx, "Commit")
+		commits := m.invokesOn(wtx, "Commit")
 		var commitNil []Edge
 		for _, cm := range commits {
 			if call, ok := cm.(*ssa.Call); ok {
@@ -146,7 +226,7 @@ func propC02(c *Ctx) {
 			}
 		}
 		for i, r := range succ {
-			c.Check("R2.2", fmt.Sprintf("Converge/return-nil#%d←commit", i+1), instrPos(r), guardedByEdges(conv, r, commitNil),
+			c.Check("R2.2", fmt.Sprintf("Converge/return-nil#%d←commit", i+1), instrPos(r), m.guarded(r, commitNil),
 				"every path to `return nil` passes Commit of the write transaction with its error tested nil")
 		}
 		// path-sensitive (pathsens.go): on every feasible path to the site the
@@ -162,7 +242,7 @@ func propC02(c *Ctx) {
 		writers := m.writers(sites)
 		for i, cm := range commits {
 			bad := ""
-			for _, ci := range callsIn(conv) {
+			for _, ci := range m.allCalls() {
 				if ci == cm {
 					continue
 				}
@@ -195,7 +275,7 @@ func propC02(c *Ctx) {
 			cuts.addEdges(nonNil)
 		}
 		for _, name := range []string{"Commit", "Rollback"} {
-			for _, ci := range invokesOn(conv, tx, name) {
+			for _, ci := range m.invokesOn(tx, name) {
 				cuts.addInstr(ci)
 			}
 		}
@@ -239,28 +319,28 @@ func propC02(c *Ctx) {
 			c.Violation("R2.4", "(*Task).Delete/sites", del.Pos(), "expected a cursor delete and a Destination.Delete call")
 		}
 		// commit of the read transaction only after a clean load
-		loads := callsToFn(conv, m.load)
+		loads := m.calls(m.load)
 		if len(loads) != 1 || len(m.tx) == 0 {
 			c.Violation("R2.4", "Converge/load", conv.Pos(), "expected one load call")
 		} else {
 			ld := loads[0]
 			lerr, _ := errResult(ld)
-			rtxIdx, _ := m.beginIndex(callsToFn(conv, m.latest)[0].Call.Args[2])
+			rtxIdx, _ := m.beginIndex(m.calls(m.latest)[0].Call.Args[2])
 			if rtxIdx >= 0 && lerr != nil {
 				rtx := m.tx[rtxIdx]
 				isNil, _ := nilTestEdges(lerr)
 				_, notReorg := errorsIsEdges(lerr, w.Global("shovel", "ErrReorg"))
-				for i, cm := range invokesOn(conv, rtx, "Commit") {
+				for i, cm := range m.invokesOn(rtx, "Commit") {
 					if _, isDefer := cm.(*ssa.Defer); isDefer {
 						continue
 					}
 					r1, _ := reach(siteOf(ld), isInstr(cm), newCuts().addEdges(isNil))
 					r2, _ := reach(siteOf(ld), isInstr(cm), newCuts().addEdges(notReorg))
-					dom := dominatesInstr(ld, cm)
+					dom := m.dom(ld, cm)
 					c.Check("R2.4", fmt.Sprintf("Converge/read-tx-commit#%d", i+1), instrPos(cm), dom && !r1 && !r2,
 						"Commit of the read/reorg transaction is reached only when load's error is nil and not ErrReorg")
 					// and never between a Delete and the next load
-					for _, dc := range callsToFn(conv, m.del) {
+					for _, dc := range m.calls(m.del) {
 						r3, _ := reach(siteOf(dc), isInstr(cm), newCuts().addInstr(ld))
 						c.Check("R2.4", fmt.Sprintf("Converge/no-commit-between-delete-and-load#%d", i+1), dc.Pos(), !r3,
 							"after Delete the transaction cannot be committed before the next load")
